@@ -59,6 +59,8 @@ def touch(st, k):
         cls, field = k[2:].rstrip("?").split(".")
         st.farr(cls, field, "none" if k.endswith("?") else "val")
         return True
+    if k.startswith("len:") or k.startswith("el:"):
+        return k in st.heap
     if k in ("len", "mem", "heapok", "alloc", "nodup"):
         {"len": st.len_arr, "mem": st.mem_arr, "heapok": st.heapok_arr, "alloc": st.alloc_arr, "nodup": st.nodup_arr}[k]()
         return True
@@ -113,8 +115,9 @@ class FSpec:
     """contract of one real function. pre/post return lists of (label, formula)."""
 
     def __init__(self, qual, pre=None, post=None, modifies=None, raises=None, result=None, param_types=None, fresh_result=False,
-                 effect=None, props=(), may_raise_unspecified=False, axioms=None):
+                 effect=None, props=(), may_raise_unspecified=False, axioms=None, trace=None):
         self.axioms = axioms or (lambda st, a: [])
+        self.trace = trace            # trace(st0, st1, a, res) -> events appended by one call
         self.qual = qual
         self.pre = pre or (lambda st, a: [])
         self.post = post or (lambda st0, st1, a, res: [])
@@ -235,7 +238,11 @@ class FSpec:
             st1.assume(f)
         if self.effect:
             self.effect(st0, st1, a, res)
-        out.append((st1, res))
+        states = [st1]
+        if self.trace:
+            append_events(states, self.trace(st0.peek(), st1.peek(), a, res))
+        for sx in states:
+            out.append((sx, res))
         return out
 
     # ---- verification of the function body against the contract
@@ -281,6 +288,8 @@ class FSpec:
             for label, f in self.post(st0.peek(), s1.peek(), a, res):
                 s1.oblige(f"post:{label}", f, "post")
             frame_obligations(st0.heap, alloc0, s1, mods, "")
+            if self.trace:
+                match_trace(s1, s1.trace[len(st0.trace):], self.trace(st0.peek(), s1.peek(), a, res), self.qual)
             if extra_goals:
                 extra_goals(ex, st0, s1, a, res)
         info = {"paths": n_paths, "assumptions": sorted(ex.used_assumptions), "function": self.qual,
@@ -476,3 +485,144 @@ def pin(obl, qual, expected, what):
     h = hashlib.sha256("\n".join(_ast.unparse(s) for s in body).encode()).hexdigest()[:12]
     obl.append({"name": f"{qual}/pin:{what}", "pc": [], "goal": z3.BoolVal(h == expected), "kind": "pin", "hints": {"actual": h, "expected": expected}})
     return h
+
+
+# ----------------------------------------------------------------------------- ghost event traces (DESIGN App. C)
+ELEM = z3.Const("ELEM", REF)          # canonical element of a for-each template
+
+
+def event(kind, *args, guard=None):
+    return (kind, guard, tuple(a.term if isinstance(a, V) else a for a in args))
+
+
+def implied(pc, f):
+    s = z3.Solver(); s.set("rlimit", 3000000)
+    memo = {}
+    s.add(*[c for c in pc if not has_quant(c, memo)]); s.add(z3.Not(f))
+    return s.check() == z3.unsat
+
+
+def append_events(states, events):
+    """append (possibly guarded) events to each state, splitting a state when a guard is undetermined on its path"""
+    for ev in events:
+        kind, g, args = ev
+        if g is None:
+            for s in states:
+                s.trace = s.trace + [(kind, None, args)]
+            continue
+        nxt = []
+        for s in states:
+            if implied(s.pc, g):
+                s.trace = s.trace + [(kind, None, args)]; nxt.append(s)
+            elif implied(s.pc, z3.Not(g)):
+                nxt.append(s)
+            else:
+                sa = s.copy(); sa.assume(g); sa.trace = sa.trace + [(kind, None, args)]
+                sb = s.copy(); sb.assume(z3.Not(g))
+                nxt += [sa, sb]
+        states[:] = nxt
+    return states
+
+
+def emit(kind, result=None, fresh_result=False, with_recv=True):
+    """contract of a callback / announced call that is visible only through the ghost trace: appends `kind(recv, args..., result)`"""
+    def h(ex, st, recv, pos, kw, node):
+        args = ([recv] if (with_recv and recv is not None) else []) + list(pos) + [kw[k] for k in kw]
+        st = st.copy()
+        if result is None:
+            res = NONE
+        elif fresh_result:
+            res = V(result, st.new_ref("res_" + kind))
+        else:
+            res = fresh(result, "res_" + kind); st.assume_alloc(res)
+        targs = [a.term for a in args if a.term is not None] + ([res.term] if result is not None else [])
+        st.trace = st.trace + [(kind, None, tuple(targs))]
+        return [(st, res)]
+    return h
+
+
+def match_trace(st, actual, expected, label):
+    """obligations: on this path the trace suffix `actual` is exactly `expected` (guards resolved against the path condition)"""
+    exp = []
+    for kind, g, args in expected:
+        if g is None or implied(st.pc, g):
+            exp.append((kind, args))
+        elif implied(st.pc, z3.Not(g)):
+            continue
+        else:
+            st.oblige(f"trace:{label}: guard of {kind} decided on every path", z3.Or(g, z3.Not(g)) if False else z3.BoolVal(False), "trace")
+            return
+    act = [(k, a) for k, g, a in actual]
+    shape_ok = len(act) == len(exp) and all(x[0] == y[0] and len(x[1]) == len(y[1]) for x, y in zip(act, exp))
+    if not shape_ok:
+        st.oblige(f"trace:{label}: events are exactly {[k for k, _ in exp]} (got {[k for k, _ in act]})", z3.BoolVal(False), "trace")
+        return
+    eqs = []
+    for (k, aa), (_, ea) in zip(act, exp):
+        for x, y in zip(aa, ea):
+            if isinstance(x, tuple) or isinstance(y, tuple):      # for-each template
+                if not (isinstance(x, tuple) and isinstance(y, tuple)) or [t[0] for t in x] != [t[0] for t in y]:
+                    st.oblige(f"trace:{label}: for-each body pattern of {k}", z3.BoolVal(False), "trace"); return
+                for (k1, g1, a1), (k2, g2, a2) in zip(x, y):
+                    if len(a1) != len(a2):
+                        st.oblige(f"trace:{label}: for-each body pattern of {k}", z3.BoolVal(False), "trace"); return
+                    eqs += [p == q for p, q in zip(a1, a2)]
+                    if (g1 is None) != (g2 is None):
+                        eqs.append((g1 if g1 is not None else z3.BoolVal(True)) == (g2 if g2 is not None else z3.BoolVal(True)))
+                    elif g1 is not None:
+                        eqs.append(g1 == g2)
+            else:
+                eqs.append(x == y)
+    st.oblige(f"trace:{label}: events {[k for k, _ in exp]} with the right arguments", z3.And(*eqs) if eqs else z3.BoolVal(True), "trace")
+
+
+class ForEachTrace:
+    """for-each fragment: `for x in xs: BODY` where BODY has no heap effect of its own and no break/continue/return;
+    summarised as one event ForEach(xs, template) -- the for-each rule gives: BODY's events once per element, in order."""
+
+    def __init__(self, header=None, name="foreach", elem_facts=None, elem_type=None):
+        self.header, self.name, self.elem_facts, self.elem_type = header, name, elem_facts, elem_type
+
+    def run_for(self, ex, s, st, d):
+        import ast as _ast
+        for nn in _ast.walk(s):
+            if isinstance(nn, (_ast.Break, _ast.Continue, _ast.Return)):
+                raise Unsupported(f"loop `{self.name}` is not in the for-each fragment (break/continue/return)")
+        out = []
+        for s1, it in ex.ev(s.iter, st, d):
+            s1 = s1.copy()
+            n, at, ety = ex.iter_view(s1, it)
+            ety = self.elem_type or ety
+            if strip_opt(ety)[0] != "ref":
+                raise Unsupported("for-each template over non-reference elements")
+            sb = s1.copy(); sb.trace = []
+            elem = V(ety, ELEM)
+            sb.assume(sb.is_alloc(ELEM))
+            if self.elem_facts:
+                for f in self.elem_facts(sb.peek(), elem, it):
+                    sb.assume(f)
+            ex.bind_target(s.target, elem, sb.env)
+            base = len(sb.pc); heap0 = dict(sb.heap)
+            template = []
+            for s2, kind, val in ex.run(s.body, sb, d):
+                if kind != "fall":
+                    out.append((s2, kind, val)) if kind == "raise" else None
+                    if kind != "raise":
+                        raise Unsupported("for-each body leaves the loop")
+                    continue
+                for k, v in s2.heap.items():
+                    if k != "alloc" and not (k in heap0 and heap0[k].eq(v)) and not k.startswith("g:"):
+                        raise Unsupported(f"for-each body of `{self.name}` has a heap effect on {k}; use an invariant")
+                g = z3.And(*s2.pc[base:]) if len(s2.pc) > base else None
+                for k_, g_, a_ in s2.trace:
+                    gg = g if g_ is None else (z3.And(g, g_) if g is not None else g_)
+                    template.append((k_, gg, a_))
+            seq_term = it.term if it.term is not None else z3.IntVal(-1)
+            s1.trace = s1.trace + [("ForEach", None, (seq_term, tuple(template)))]
+            # loop-carried locals assigned in the body are unknown afterwards
+            for nme in assigned_names(s.body):
+                v = s1.env.get(nme)
+                if v is not None and v.term is not None and v.ty[0] in ("ref", "int", "real", "bool", "opt"):
+                    s1.env[nme] = fresh(v.ty, nme)
+            out.append((s1, "fall", None))
+        return out
